@@ -175,13 +175,17 @@ def _part_value(v):
     return make_value(v)
 
 
-@memento_function(cluster=CL, version="1")
-def pnode(spec):
-    """spec: {"id", "own": [[key, value-descriptor]...], "parent": spec or None, "ondisk": bool}"""
+def pnode_fn(spec):
+    """the function that computes a link: links may live in two clusters (with different stores)"""
+    return pnode2 if spec.get("cl") else pnode
+
+
+def _pnode_body(spec):
+    """spec: {"id", "own": [[key, value-descriptor]...], "parent": spec or None, "ondisk": bool, "cl": 0 / 1}"""
     from twosigma.memento.partition import InMemoryPartition
     from twosigma.memento.storage_filesystem import OnDiskPartition
     _trace(("exec", "pnode", spec.get("id"), None))
-    parent = pnode(spec["parent"]) if spec.get("parent") else None
+    parent = pnode_fn(spec["parent"])(spec["parent"]) if spec.get("parent") else None
     if spec.get("ondisk"):
         p = OnDiskPartition()
         for k, v in spec["own"]:
@@ -200,7 +204,18 @@ def pnode(spec):
     return p
 
 
+@memento_function(cluster=CL, version="1")
+def pnode(spec):
+    return _pnode_body(spec)
+
+
+@memento_function(cluster="fc2", version="1")
+def pnode2(spec):
+    return _pnode_body(spec)
+
+
 FUNCS["pnode"] = pnode
+FUNCS["pnode2"] = pnode2
 
 
 @memento_function(cluster=CL, version="1")
@@ -209,7 +224,7 @@ def prelay(spec):
     _trace(("exec", "prelay", spec.get("id"), None))
     if spec.get("depth", 0) > 0:
         return prelay(dict(spec, depth=spec["depth"] - 1, id=spec["id"] * 10))
-    return pnode(spec["inner"])
+    return pnode_fn(spec["inner"])(spec["inner"])
 
 
 FUNCS["prelay"] = prelay
